@@ -1,5 +1,5 @@
 CONSTANTS EP = {"e1", "e2", "e3"}  Models = {"alphaone", "bravotwo"}  Ask = {"alphaone", "bravotwo", "zuluniner"}
-          Kinds = {"ollama", "vllm"}  Routes = {"proxy", "ollama", "vllm"}  MaxLen = 0
+          Kinds = {"ollama", "vllm"}  Routes = {"proxy", "ollama", "vllm", "anthropic"}  MaxLen = 0
 CONSTANT KnownDeviations = ${KnownDeviations}
 SPECIFICATION TraceSpec
 CONSTRAINT HW
